@@ -89,6 +89,18 @@ pub fn check_pointers(msg: &[u8], case: &mut Case) -> Result<usize, Fail> {
     Ok(npointers)
 }
 
+/// every name of a packet in wire order: question names, owner names, names embedded in RDATA
+fn names_of(x: &APacket) -> Vec<AName> {
+    let mut v: Vec<AName> = x.questions.iter().map(|q| q.name.clone()).collect();
+    for r in x.records() {
+        v.push(r.name.clone());
+        if let ARData::Typed { code, fields } = &r.rdata {
+            v.extend(embedded_names(*code, fields).into_iter().map(|(n, _)| n.clone()));
+        }
+    }
+    v
+}
+
 /// (packet, starting offset of the writer)
 pub type In = (Sharing, u16);
 
@@ -96,14 +108,27 @@ fn check(input: &In, case: &mut Case) -> Result<(), Fail> {
     let (s, origin) = input;
     let p = s.assemble();
     let pk = lib("build", || build(&p))?.map_err(|e| Fail::new("harness:build", e))?;
+    // the pointer rules are judged on packets whose plain form is what the model says (otherwise the layout itself is
+    // wrong, which is C02's / C10's business, and the schema-aware walker has nothing to stand on)
+    match ser_plain(&pk) {
+        Ok(u) => {
+            super::c03::size_classes(&u, case);
+            if !matches!(decode_message(&u), Ok((back, _)) if back == p) {
+                case.class("plain-form-differs-from-model:no-claim");
+                return Ok(());
+            }
+        }
+        Err(_) => {
+            case.class("plain-form-refused:no-claim");
+            return Ok(());
+        }
+    }
     let c = ser_compressed(&pk).map_err(|f| Fail::new("c07:compressed-failed", f.msg))?;
-    let u = ser_plain(&pk).map_err(|f| Fail::new("c07:plain-failed", f.msg))?;
-    super::c03::size_classes(&u, case);
     let n = check_pointers(&c, case)?;
     case.nontrivial = n >= 1;
     // expands to the intended names
     let (back, _) = decode_message(&c).map_err(|e| Fail::new("c07:undecodable", format!("{:?}", e)))?;
-    ensure!(back == p, "c07:expands-wrong", "compressed output decodes (reference decoder) to a different packet: {}", diff(&p, &back));
+    ensure!(names_of(&back) == names_of(&p), "c07:expands-wrong", "compressed output decodes (reference decoder) to different names: {}", diff(&p, &back));
     // a writer that takes only a few bytes per write call: pointer offsets must not depend on it
     {
         let chunk = 1 + (*origin as usize % 5);
@@ -112,8 +137,11 @@ fn check(input: &In, case: &mut Case) -> Result<(), Fail> {
         r.map_err(|e| Fail::new("c07:write-failed", format!("write_compressed_to on a writer accepting {} bytes per call: {:?}", chunk, e)))?;
         let v = w.inner.into_inner();
         if v != c {
+            // other bytes than the vector entry point wrote are acceptable as long as the pointer rules hold for them
+            case.class("short-write-output-differs");
             check_pointers(&v, &mut Case::default()).map_err(|f| Fail::new(format!("{}@short-writes", f.sig), format!("writer accepting {} bytes per call: {}", chunk, f.msg)))?;
-            return Err(Fail::new("c07:differs@short-writes", format!("a writer accepting {} bytes per call receives different bytes than build_bytes_vec_compressed", chunk)));
+            let (back, _) = decode_message(&v).map_err(|e| Fail::new("c07:undecodable@short-writes", format!("writer accepting {} bytes per call: {:?}", chunk, e)))?;
+            ensure!(names_of(&back) == names_of(&p), "c07:expands-wrong@short-writes", "writer accepting {} bytes per call: {}", chunk, diff(&p, &back));
         }
     }
     // a writer that does not start at offset 0: pointers still count from the first byte of the message
@@ -129,7 +157,7 @@ fn check(input: &In, case: &mut Case) -> Result<(), Fail> {
         let msg = &v[k..];
         check_pointers(msg, &mut Case::default()).map_err(|f| Fail::new(format!("{}@origin", f.sig), format!("writer starting at offset {}: {}", k, f.msg)))?;
         let (back, _) = decode_message(msg).map_err(|e| Fail::new("c07:undecodable@origin", format!("writer starting at offset {}: {:?}", k, e)))?;
-        ensure!(back == p, "c07:expands-wrong@origin", "writer starting at offset {}: {}", k, diff(&p, &back));
+        ensure!(names_of(&back) == names_of(&p), "c07:expands-wrong@origin", "writer starting at offset {}: {}", k, diff(&p, &back));
     }
     Ok(())
 }
@@ -168,7 +196,7 @@ fn check_many_names(input: &(u16, u8), case: &mut Case) -> Result<(), Fail> {
     let npointers = check_pointers(&c, case)?;
     case.nontrivial = npointers >= 1;
     let (back, _) = decode_message(&c).map_err(|e| Fail::new("c07:undecodable", format!("{:?}", e)))?;
-    ensure!(back == p, "c07:expands-wrong", "{}", diff(&p, &back));
+    ensure!(names_of(&back) == names_of(&p), "c07:expands-wrong", "{}", diff(&p, &back));
     Ok(())
 }
 
